@@ -24,6 +24,9 @@ CLAIMED = {
  "C18": dict(cat="other", technique="CrossHair on the real delta/table/Markdown/findings code with figures as unbounded solver variables behind opaque format markers; replay with plain ints through a real rich Console",
              text="Bounded in shape (two languages, one figure column symbolic per query, five language-set scenarios, 0..25 findings), unbounded in every figure: shown value == stored value and annotation <=> current != previous with the exact difference, identically in text and Markdown.",
              ref="DESIGN.md 3/C18"),
+ "C16": dict(cat="other", technique="CrossHair on the real lex() over a contract-stub lexer with symbolic offsets, lengths, kinds and newline offsets; unit contracts on symbolic strings",
+             text="Bounded in the number of tokens/newlines per query (3/3), unbounded in every offset and length; the oracle is the definition of line/column from newline offsets. What Pygments emits for a text is assumed to follow its documented contract (zero-length tokens included).",
+             ref="DESIGN.md 3/C16"),
 }
 NA = {}
 def main():
